@@ -28,9 +28,10 @@
 //  * C11(b): free-floating base (Free mobilizer), every force element / constraint acts
 //    between two non-Ground bodies or on a non-base mobilizer, no gravity;
 //  * integrator exceptions (StepFailed, InitializationFailed) are outcomes that are
-//    counted; states returned before the exception are still judged (C11: except those in
-//    the last 20% of the simulated time before a StepFailed, i.e. the approach to the point
-//    the integrator declared impassable);
+//    counted, and so are stalls (10 consecutive "steps" that do not advance time: CPodes
+//    continuing with t + h == t); states returned before are still judged (C11: except those
+//    in the last 20% of the simulated time before the failure / stall, i.e. the approach to
+//    the point the integrator declared impassable);
 //  * every run is bounded by a count of returned states (no wall clock anywhere).
 #include "model.h"
 #include <array>
@@ -358,8 +359,14 @@ static bool genForce(Spec& sp, const RefCfg& ref, Rng& r, int kind, bool interna
 }
 
 // one constraint of the given kind assembled at the reference configuration
+static int eqBudget(const Spec& sp, const RefCfg& ref) {   // constraint equations that still fit: leave >= 2 free mobilities
+    int nuFree = 0; for (size_t k = 0; k < sp.desc.nodes.size(); ++k) if (!hasMotion(sp, (int)k)) nuFree += ref.nu[k];
+    int used = 0; for (auto& c : sp.cons) used += cEqs(c.kind);
+    return nuFree - 2 - used;
+}
 static bool genConstraint(Spec& sp, const RefCfg& ref, Rng& r, int kind, bool internalOnly) {
     int nb = (int)sp.desc.nodes.size(); int lo = internalOnly ? 0 : -1;
+    if (cEqs(kind) > eqBudget(sp, ref)) { if (eqBudget(sp, ref) >= 1) kind = C_Rod; else return false; }
     CSpec c; c.kind = kind;
     auto coordCand = simpleCoords(sp, internalOnly ? 1 : 0);
     switch (kind) {
@@ -480,8 +487,8 @@ struct RunOpts {
             .set("stepMode", stepMode).set("hFixed", hFixed).set("hMin", hMin).set("nReports", nReports);
     }
 };
-enum SKind { SK_Start, SK_Step, SK_Report, SK_ReportInterp, SK_EventBefore, SK_Scheduled, SK_StepLimit, SK_End, SK_Count };
-static const char* skName(int k) { static const char* n[] = {"start", "step", "report", "report-interp", "event-before", "scheduled", "steplimit", "end"}; return n[k]; }
+enum SKind { SK_Start, SK_Step, SK_Report, SK_ReportInterp, SK_EventBefore, SK_EventAfter, SK_Scheduled, SK_StepLimit, SK_End, SK_Count };
+static const char* skName(int k) { static const char* n[] = {"start", "step", "report", "report-interp", "event-before", "event-after", "scheduled", "steplimit", "end"}; return n[k]; }
 
 struct RunResult { std::string outcome = "completed"; std::string what; long nStates = 0; double tEnd = 0; };
 
@@ -507,17 +514,17 @@ template <class F> static RunResult simulate(Ctx& c, Built& b, const Spec& sp, c
     c.setPhase(std::string("initialize ") + ikName(o.integ));
     try { ts.initialize(s); }
     catch (const std::exception& e) { R.outcome = "InitializationFailed"; R.what = firstLine(e.what(), 300); return R; }
-    int rep = 1; double tRep = o.T * rep / o.nReports;
+    int rep = 1, stalled = 0, prevKind = -1; double tRep = o.T * rep / o.nReports;
     for (;;) {
         Integrator::SuccessfulStepStatus st;
         c.setPhase(std::string("stepTo ") + ikName(o.integ));
-        try { st = ts.stepTo(tRep); }
+        try { st = c.args.getInt("direct", 0) ? integ->stepTo(tRep) : ts.stepTo(tRep); }   // --direct: debugging aid (no TimeStepper)
         catch (const std::exception& e) { R.outcome = "StepFailed"; R.what = firstLine(e.what(), 300); break; }
         const State& rs = integ->getState();
         int kind;
         switch (st) {
         case Integrator::StartOfContinuousInterval: kind = SK_Start; break;
-        case Integrator::TimeHasAdvanced: kind = SK_Step; break;
+        case Integrator::TimeHasAdvanced: kind = (prevKind == SK_EventBefore) ? SK_EventAfter : SK_Step; break;   // event-after: the state at tHigh
         case Integrator::ReachedReportTime: kind = integ->isStateInterpolated() ? SK_ReportInterp : SK_Report; break;
         case Integrator::ReachedEventTrigger: kind = SK_EventBefore; break;
         case Integrator::ReachedScheduledEvent: kind = SK_Scheduled; break;
@@ -525,7 +532,9 @@ template <class F> static RunResult simulate(Ctx& c, Built& b, const Spec& sp, c
         case Integrator::EndOfSimulation: kind = SK_End; break;
         default: kind = SK_Step;
         }
-        ++R.nStates; R.tEnd = rs.getTime();
+        // a "step" that does not advance time (CPodes continuing with t + h == t): after 10 in a row the run is stalled
+        if (kind == SK_Step && rs.getTime() - R.tEnd <= 1e-13 * std::max(1.0, std::fabs(rs.getTime()))) { if (++stalled >= 10) { R.outcome = "stalled"; break; } } else stalled = 0;
+        ++R.nStates; R.tEnd = rs.getTime(); prevKind = kind;
         c.setPhase(std::string("monitor ") + ikName(o.integ) + " " + skName(kind));
         if (!onState(rs, kind, integ->isStateInterpolated(), *integ)) { R.outcome = "guard"; break; }
         if (st == Integrator::EndOfSimulation || integ->isSimulationOver()) break;
@@ -596,7 +605,7 @@ static Trace runEnergy(Ctx& c, const Spec& sp, const RunOpts& o, bool wantMoment
         if (c.args.verbose && c.args.getInt("trace", 0)) fprintf(stderr, "  t=%.6f %-13s E=%.9g KE=%.6g PE=%.6g Ediss=%.6g |P|=%.6g |L|=%.6g\n", r.t, skName(kind), r.ke + r.pe, r.ke, r.pe, r.ediss, r.P.norm(), r.L.norm());
         return true;
     });
-    if (T.run.outcome == "StepFailed") {   // the integrator gave up at tEnd: the approach to that point (last 20% in time) is not judged
+    if (T.run.outcome == "StepFailed" || T.run.outcome == "stalled") {   // the integrator gave up at tEnd: the approach to that point (last 20% in time) is not judged
         size_t keep = 0; while (keep < T.rec.size() && T.rec[keep].t <= 0.8 * T.run.tEnd) ++keep;
         T.rec.resize(keep);
     }
@@ -701,7 +710,7 @@ static void checkC11(Ctx& c, long idx, Rng& r) {
     c.obs("outcome:" + T.run.outcome + ":" + in);
     if (T.nonFinite) { c.viol("nonfinite:" + in, Json(wit0).set("what", "NaN/Inf in a returned state or its energy").set("t", T.run.tEnd)); return; }
     if (!T.guard.empty()) c.obs("run-cut:" + T.guard);
-    if (T.run.outcome == "StepFailed") c.obs("run-cut:last-20%-before-StepFailed");
+    if (T.run.outcome == "StepFailed" || T.run.outcome == "stalled") c.obs("run-cut:last-20%-before-StepFailed-or-stall");
     if (T.rec.size() < 3) { c.skip(T.guard.empty() ? "too-few-states:" + T.run.outcome : "guard-at-start:" + T.guard); return; }
     Drift D = measure(T);
     if (c.wantSample()) c.sample(Json(wit0).set("states", (long)T.rec.size()).set("drift_a", D.a).set("drift_P", D.P).set("drift_L", D.L).set("Escale", D.Escale));
@@ -804,7 +813,7 @@ static void checkC21(Ctx& c, long idx, Rng& r) {
     o.hFixed = r.logUni(0.003, 0.03); o.hMin = r.logUni(0.005, 0.05);
     { int k = (variant / 5) % 5; o.stepMode = (k == 3) ? 1 : (k == 4) ? 2 : 0; }
     if (integ == IK_SEE) o.stepMode = 2;
-    o.maxStates = 20000;
+    o.maxStates = 3000;
 
     Built b; b.build(sp, true, true);
     {
@@ -826,12 +835,13 @@ static void checkC21(Ctx& c, long idx, Rng& r) {
         kindsSeen.insert(kind);
         if (kind == SK_End) return true;               // same state object as the previous return
         if (!allFinite(rs.getY()) || !std::isfinite(rs.getTime())) {
-            c.viol("nonfinite:" + in + ":" + skName(kind) + modeTag, Json(wit0).set("t", rs.getTime())); stop = true; return false;
+            c.viol((o.stepMode != 0 && integ != IK_SEE) ? "forced-step-size:" + in + modeTag : "nonfinite:" + in + ":" + skName(kind), Json(wit0).set("t", rs.getTime())); stop = true; return false;
         }
         // independent re-evaluation of the constraint errors from <t,q,u> alone
         State s(rs);
         s.invalidateAllCacheAtOrAbove(Stage::Time);
         b.m.sys.realize(s, Stage::Velocity);
+        if (const char* g = guardReason(b, s)) { c.obs(std::string("run-cut:") + g); return false; }   // step sizes collapse there: cost only
         const double tol = ig.getConstraintToleranceInUse() * (1 + 1e-6);
         const bool inf = ig.isInfinityNormInUse();
         const int nQuat = b.m.matter.getNumQuaternionsInUse(s), nQErr = s.getNQErr(), mHolo = nQErr - nQuat, nUErr = s.getNUErr();
@@ -852,13 +862,23 @@ static void checkC21(Ctx& c, long idx, Rng& r) {
         if (c.args.verbose) fprintf(stderr, "  t=%.6f %-13s interp=%d perr=%.3g quat=%.3g/%.3g verr=%.3g tol=%.3g%s\n", rs.getTime(), skName(kind), (int)interpolated, pn, qn, qn2, vn, tol, judge ? "" : " (not judged)");
         if (!judge) { ++unjudgedInterp; if (pn > tol || qn > tol || vn > tol) ++offManifoldUnjudged; return true; }
         ++judged;
-        const std::string tail = in + ":" + skName(kind) + modeTag;
+        // Violation keys: <class>:<integrator>:<kind of returned state> in the configurations the statement quantifies over.
+        // Two situations get a key of their own (one root cause each, whatever error norm shows it first):
+        //  * a minimum / fixed step size is forced on an error-controlled integrator (configuration outside the quantifier);
+        //  * CPodes hands back a state that CPODES itself interpolated (report time in normal mode, tHigh after a root
+        //    return) and that is returned as a non-interpolated trajectory state.
+        const bool cpInterp = ikIsCPodes(integ) && !interpolated && (kind == SK_Report || kind == SK_EventAfter);
+        auto keyOf = [&](const char* cls) {
+            if (o.stepMode != 0 && integ != IK_SEE) return std::string("forced-step-size") + ":" + in + modeTag;
+            if (cpInterp) return std::string("cpodes-internal-interpolant:") + in + ":" + skName(kind);
+            return std::string(cls) + ":" + in + ":" + skName(kind);
+        };
         auto W = [&](const char* what, double v) { return [&, what, v] { return Json(wit0).set("what", what).set("norm", v).set("consTolInUse", ig.getConstraintToleranceInUse()).set("t", rs.getTime()).set("interpolated", interpolated); }; };
         bool ok = true;
-        if (mHolo) ok &= c.check("perr:" + tail, pn, tol, W("weighted position-constraint error norm of a returned state exceeds the constraint tolerance in use", pn));
-        if (nQuat) { ok &= c.check("quat:" + tail, qn, tol, W("quaternion normalisation error norm of a returned state exceeds the constraint tolerance in use", qn));
-                     ok &= c.check("quat:" + tail, qn2, tol, W("| |q|-1 | (harness-side) of a returned state exceeds the constraint tolerance in use", qn2)); }
-        if (nUErr) ok &= c.check("verr:" + tail, vn, tol, W("weighted velocity-constraint error norm of a returned state exceeds the constraint tolerance in use", vn));
+        if (mHolo) ok &= c.check(keyOf("perr"), pn, tol, W("weighted position-constraint error norm of a returned state exceeds the constraint tolerance in use", pn));
+        if (nQuat) { ok &= c.check(keyOf("quat"), qn, tol, W("quaternion normalisation error norm of a returned state exceeds the constraint tolerance in use", qn));
+                     ok &= c.check(keyOf("quat"), qn2, tol, W("| |q|-1 | (harness-side) of a returned state exceeds the constraint tolerance in use", qn2)); }
+        if (nUErr) ok &= c.check(keyOf("verr"), vn, tol, W("weighted velocity-constraint error norm of a returned state exceeds the constraint tolerance in use", vn));
         // prescribed motion
         bool needAcc = false; for (auto& mr : mrefs) if (mr.kind == M_SinAcc) needAcc = true;
         if (needAcc) { try { b.m.sys.realize(s, Stage::Acceleration); } catch (const std::exception&) { needAcc = false; c.obs("acceleration-realize-failed-on-returned-state"); } }
@@ -877,7 +897,7 @@ static void checkC21(Ctx& c, long idx, Rng& r) {
             if (hq) for (int i = 0; i < mr.nq; ++i) eq = std::max(eq, std::fabs(rs.getQ()[mr.qStart + i] - qv));
             if (hu) for (int i = 0; i < mr.nu; ++i) eu = std::max(eu, std::fabs(rs.getU()[mr.uStart + i] - uv));
             if (ha) for (int i = 0; i < mr.nu; ++i) ea = std::max(ea, std::fabs(s.getUDot()[mr.uStart + i] - av));
-            const std::string mk = std::string("motion:") + mName(mr.kind) + ":" + tail;
+            const std::string mk = (o.stepMode != 0 && integ != IK_SEE) ? keyOf("motion") : std::string("motion:") + mName(mr.kind) + ":" + in + ":" + skName(kind);
             double sc = 1e-12 * (1 + std::fabs(m.amp) * (1 + m.rate) + std::fabs(m.c0) + std::fabs(m.c1) * (1 + t) + std::fabs(m.c2) * (1 + t) * (1 + t));
             if (hq) ok &= c.check(mk, eq, sc, W("prescribed q of a returned state differs from the Motion's analytic value", eq));
             if (hu) ok &= c.check(mk, eu, sc, W("prescribed u of a returned state differs from the Motion's analytic value", eu));
